@@ -17,6 +17,8 @@ from pathlib import Path
 ROOT = Path(__file__).resolve().parent.parent
 sys.path.insert(0, str(ROOT))
 os.environ.setdefault("KAPPADATA_VERIF", "1")
+if len(sys.argv) > 1:
+    os.environ["VF_RUN_ID"] = f"{sys.argv[1].upper()}_{os.getpid()}"
 
 from vf import common  # noqa: E402
 from vf.engine import Cond, Result, run_conditions  # noqa: E402
@@ -242,6 +244,10 @@ def main(argv):
         },
     }
     evid_path.write_text(json.dumps(evidence, indent=1, default=repr))
+    import shutil
+    from vf.engine import WORK
+    if not os.environ.get("VERIF_KEEP_WORK"):
+        shutil.rmtree(WORK, ignore_errors=True)
     log(f"[{pid}] {len(confirmed)}/{len(mains)} conditions confirmed over all paths, {twins_refuted}/{len(twins)} twins witnessed, "
         f"{len(violations)} violations, {len(inconclusive)} inconclusive, {len(harness_errors)} harness errors, wall {wall:.1f}s")
     if os.environ.get("VERIF_TIMES"):
